@@ -163,4 +163,66 @@ theorem C27_label_spec_partial (adds : List (Nat × Label)) (idx s : Nat) (l : L
 
 example : getLabel (build [(0, ⟨.lowerRoman, some [112], 3⟩)]) 1 = .label [112, 105, 118] := by decide
 
+/- FULL (false of the current code for prefixes with a non-ASCII character — see the witness):
+   theorem C27_prefix_text_string (l : Label) :
+     match l.toDict.p with
+     | some (.str bs) => Spec.readTextString bs = Spec.utf8Decode (l.pfx.getD [])
+     | _ => l.pfx = none -/
+
+/-- An ASCII prefix (TAB, LF, CR, 0x20..0x7E) is written so that a reader of the text string
+`/P` sees exactly the authored characters. -/
+theorem C27_prefix_text_string_partial (l : Label) (bs : List Nat) (hp : l.pfx = some bs)
+    (hascii : ∀ b ∈ bs, b = 9 ∨ b = 10 ∨ b = 13 ∨ (32 ≤ b ∧ b ≤ 126)) :
+    l.toDict.p = some (.str bs) ∧ Spec.readTextString bs = Spec.utf8Decode bs := by
+  refine ⟨by simp [Label.toDict, hp], ?_⟩
+  have h1 : Spec.readTextString bs = bs := by
+    have hmap : bs.map (fun b => if b = 9 ∨ b = 10 ∨ b = 13 ∨ (32 ≤ b ∧ b ≤ 126) then b else 57344 + b)
+        = bs := by
+      conv => rhs; rw [← List.map_id bs]
+      apply List.map_congr_left
+      intro b hb
+      simp [hascii b hb]
+    cases bs with
+    | nil => rfl
+    | cons a r =>
+      cases r with
+      | nil => simpa [Spec.readTextString] using hmap
+      | cons b r' =>
+        have ha := hascii a (by simp)
+        have : ¬ (a = 254) := by omega
+        unfold Spec.readTextString
+        split
+        · rename_i heq
+          simp only [List.cons.injEq] at heq
+          exact absurd heq.1 this
+        · exact hmap
+  have h2 : ∀ (fuel : Nat) (xs : List Nat), xs.length ≤ fuel →
+      (∀ b ∈ xs, b = 9 ∨ b = 10 ∨ b = 13 ∨ (32 ≤ b ∧ b ≤ 126)) → Spec.utf8DecodeF fuel xs = xs := by
+    intro fuel
+    induction fuel with
+    | zero =>
+      intro xs hl _
+      have : xs = [] := List.length_eq_zero_iff.mp (by omega)
+      subst this; rfl
+    | succ f ih =>
+      intro xs hl hx
+      cases xs with
+      | nil => rfl
+      | cons b rest =>
+        have hb := hx b (by simp)
+        have : b < 128 := by omega
+        simp only [Spec.utf8DecodeF, this, if_true]
+        rw [ih rest (by simpa using hl) (fun c hc => hx c (by simp [hc]))]
+  rw [h1, Spec.utf8Decode, h2 bs.length bs (Nat.le_refl _) hascii]
+
+example : (Label.toDict ⟨.decimal, some [112, 46, 32], 1⟩).p = some (.str [112, 46, 32]) := by decide
+
+/-- counter-witness: the prefix "§" (UTF-8 `C2 A7`) is written as those two raw bytes; a reader
+of the text string shows two characters (`Â§` in PDFDocEncoding), not the authored one -/
+theorem C27_witness_prefix_utf8 :
+    (Label.toDict ⟨.decimal, some [194, 167], 1⟩).p = some (.str [194, 167]) ∧
+    (Spec.readTextString [194, 167]).length = 2 ∧ Spec.utf8Decode [194, 167] = [167] ∧
+    Spec.prefixReadsBack (some [194, 167]) (some [194, 167]) = false := by
+  decide
+
 end OxiVerif.C27
